@@ -176,3 +176,9 @@ META = dict(
                 'one z3 query against an independent closed form',
     required_outcomes=['made', 'down', 'passed_out'],
 )
+
+
+def validate(tier):
+    """translator validation: the interpreter in concrete mode against CPython on the functions this check encodes"""
+    from engine import validate as v
+    return v.run(['scores'], tier)
